@@ -119,6 +119,14 @@ func (w *World) pickNext(cur *Thread) *Thread {
 	if len(rs) == 1 {
 		return rs[0]
 	}
+	if _, seq := w.ext["sequential"]; seq {
+		for _, t := range rs {
+			if t == cur {
+				return t
+			}
+		}
+		return rs[0]
+	}
 	// order: current thread first so that alternative 0 = "no context switch"
 	if cur != nil {
 		for i, t := range rs {
